@@ -350,9 +350,31 @@ def run(ctx):
             ctx.ob("R09.5", "fork.error-test-is-signed", ga[:1] in (["i32"], ["i64"], ["isize"]), fn_.loc(bb_), "check_err is instantiated at %s in posix::fork: with an unsigned type `num < 0` is never true and fork()'s -1 becomes pid 4294967295" % ga)
     ce = prog.one("posix::check_err")
     T = M.Terms(ce)
-    lt = bool_edges(ce, T, lambda t: t[0] == "call" and t[1].endswith("PartialOrd::lt"), True)
-    errs = [bb for bb in ce.live_blocks() for s in ce.blocks[bb]["stmts"] if s["k"] == "assign" and s["p"]["l"] == 0 and s["r"].get("variant") == "Err"]
-    ctx.ob("R09.5", "check_err.negative->Err", bool(errs) and all(dominated_by_edges(ce, b, lt) for b in errs), ce.loc(0), "check_err returns Err exactly under `num < 0`")
+    # Err exactly for a negative number, however the comparison with T::default() is written (num < 0, !(num >= 0), 0 > num ...)
+    nump = ("param", 1, ce.local_name(1))
+    def neg_test(t, negative):
+        """value of a comparison between num and T::default() when num is negative / is not"""
+        if not (t and t[0] == "call" and len(t[2]) == 2):
+            return None
+        op = t[1].split("::")[-1]
+        a, b = M.noref(M.strip(t[2][0])), M.noref(M.strip(t[2][1]))
+        is_zero = lambda x: (x[0] == "call" and "Default" in x[1] and x[1].endswith("::default")) or const_of(x) == 0
+        # (a non-strict comparison does not tell zero from positive: undetermined for a non-negative number)
+        if a == nump and is_zero(b):
+            table = {"lt": negative, "ge": not negative, "le": True if negative else None, "gt": False if negative else None}
+        elif b == nump and is_zero(a):
+            table = {"gt": negative, "le": not negative, "ge": True if negative else None, "lt": False if negative else None}
+        else:
+            return None
+        v = table.get(op)
+        return None if v is None else int(v)
+    def results_when(negative):
+        ex_ = M.Explore(ce, assume_fn=lambda t_: neg_test(t_, negative))
+        return [(v, r) for (bb, si, v, r) in result_variants(ce, ex_)]
+    neg, pos = results_when(True), results_when(False)
+    okn = bool(neg) and all(v == "Err" for v, _ in neg)
+    okp = bool(pos) and all(v == "Ok" and M.noref(T.operand(r["ops"][0])) == nump for v, r in pos)
+    ctx.ob("R09.5", "check_err.negative->Err", okn and okp, ce.loc(0), "check_err returns Err exactly under `num < 0` and Ok(num) otherwise (negative: %s, non-negative: %s)" % ([v for v, _ in neg], [v for v, _ in pos]))
 
     # ---- R09.6 type-level facts ----------------------------------------
     adt = prog.adts.get(POPEN)
